@@ -70,11 +70,21 @@ def x_prog(ctx, case):
     flavour = case["flavour"]
     log, factory = make_result_factory(flavour)
     runner = programs.runner_factory_for(case.get("runner"))
+    pre_env = pre_case = None
+    if case.get("legacy_sibling") and not program.get("clone_id"):
+        # another instance of the same class was run first with an old-style RunTest factory (one that takes no
+        # last_resort - TestCase.run() falls back for it); the instance under observation is an ordinary one
+        from testtools.runtest import RunTest
+        pre_env = programs.Env(program)
+        pre_case = programs.build_case(program, pre_env, runner, factory if flavour == "none" else None)
+        sibling = type(pre_case)("test_sibling", runTest=lambda c, handlers: RunTest(c, handlers))
+        sibling._tvm_sibling = True
+        sibling.run(recorders.ExtRecorder(recorders.Log()))
     if flavour == "none":
         run = programs.execute(program, pass_none=True, default_result=factory,
-                               runner_factory=runner)
+                               runner_factory=runner, env=pre_env, case=pre_case)
     else:
-        run = programs.execute(program, factory, runner_factory=runner)
+        run = programs.execute(program, factory, runner_factory=runner, env=pre_env, case=pre_case)
     env = run.env
     raised = env.raised
     base = [r for r in raised if r[0] in programs.BASE_KINDS]
@@ -252,6 +262,8 @@ def run(ctx):
                 for stage in ("su_pre", "su", "test", "td_pre", "td"):
                     if prog.get(stage):
                         prog[stage] = [["first_run_only", prog[stage]]]
+        if rng.random() < 0.12:
+            case["legacy_sibling"] = True
         r = rng.random()
         if r < 0.15:
             case["runner"] = "sync"
